@@ -26,6 +26,9 @@ fn all_progs(s: &SessionSpec) -> String {
 fn died(property: &str, e: &WorkerError, session: &SessionSpec, counts: bool) -> Result<Vec<Violation>, String> {
     match e {
         WorkerError::Garbled(m) => Err(format!("worker output garbled: {m}")),
+        // a wall-clock limit says nothing reliable on a loaded machine: a hang is a harness error, never a verdict
+        // (a node that stops making progress is reported by the worker itself as `stuck`, and must reproduce)
+        WorkerError::Hung(m) => Err(format!("worker exceeded the wall-clock limit: {m}")),
         _ if !counts => Err(format!("worker failed: {e}")),
         WorkerError::Died(m) => Ok(vec![Violation {
             property: property.into(),
@@ -34,15 +37,6 @@ fn died(property: &str, e: &WorkerError, session: &SessionSpec, counts: bool) ->
             program: all_progs(session),
             observed: truncate(m, 600),
             expected: "the worker process survives".into(),
-            note: String::new(),
-        }]),
-        WorkerError::Hung(m) => Ok(vec![Violation {
-            property: property.into(),
-            class: "hang".into(),
-            at: "session".into(),
-            program: all_progs(session),
-            observed: truncate(m, 600),
-            expected: "the session finishes".into(),
             note: String::new(),
         }]),
     }
@@ -110,6 +104,7 @@ fn c17(session: &SessionSpec, res: &Res) -> Result<Vec<Violation>, String> {
         }
         // control runs across the whole world, by case id
         let mut ctl: BTreeMap<String, (usize, usize, usize, &Obs)> = BTreeMap::new();
+        let mut unstable: std::collections::BTreeSet<String> = Default::default();
         for (nix, node) in wspec.nodes.iter().enumerate() {
             for (oix, op) in node.ops.iter().enumerate() {
                 let Some((prog, _ev, faults, tag)) = run_parts(op) else { continue };
@@ -129,7 +124,9 @@ fn c17(session: &SessionSpec, res: &Res) -> Result<Vec<Violation>, String> {
                         }
                         Some((_, _, _, first)) => {
                             if first.outcome != obs.outcome || first.target_ops != obs.target_ops {
-                                push("control-arm-divergence", nix, oix, prog, obs.outcome.clone(), first.outcome.clone(), "two fault-free runs of the same program on the same event differ".into());
+                                // two fault-free runs of the same program on the same event differ: that is
+                                // nondeterminism (C14), not a matter of target faults; the case is not judged here
+                                unstable.insert(c.to_string());
                             }
                         }
                     }
@@ -147,6 +144,12 @@ fn c17(session: &SessionSpec, res: &Res) -> Result<Vec<Violation>, String> {
                 }
             }
             for (tag, (oix, prog, faults, obs)) in &by_tag {
+                let case_of = |id: &str| id.split(':').next().unwrap_or("").to_string();
+                if let Some(id) = tag.strip_prefix("fault:").or(tag.strip_prefix("after:")).or(tag.strip_prefix("skip:")) {
+                    if unstable.contains(&case_of(id)) {
+                        continue;
+                    }
+                }
                 if let Some(id) = tag.strip_prefix("fault:") {
                     let probe = hits_root_probe(faults);
                     if probe {
